@@ -29,7 +29,7 @@ def load_db():
     global _DB
     if _DB is None:
         db = C.ContractDB()
-        db.load_dir(CONTRACT_DIR)
+        db.load_dir(os.environ.get("PYVC_CONTRACTS", CONTRACT_DIR))
         from . import globals_ as G
 
         db.globals = G.load_globals(db)
